@@ -772,7 +772,8 @@ def _cmp(a, b, tol=1e-11):
     if isinstance(a, BaseException) or isinstance(b, BaseException):
         return isinstance(a, BaseException) and isinstance(b, BaseException)
     a, b = np.asarray(a, dtype=float), np.asarray(b, dtype=float)
-    return a.shape == b.shape and np.allclose(a, b, rtol=tol, atol=tol, equal_nan=True)
+    scale = max(1.0, float(np.nanmax(np.abs(b)))) if b.size else 1.0      # single-precision transforms: error relative to the largest entry
+    return a.shape == b.shape and np.allclose(a, b, rtol=tol, atol=tol * scale, equal_nan=True)
 
 
 def _shapes(o):
@@ -1113,6 +1114,269 @@ def part_scipy_dst(ctx, cuqi, thorough):
         gm.dst, gm.idst = orig
 
 
+
+# ----------------------------------------------------------------------------- part I: dtypes of the underlying arrays
+def _dt_geoms():
+    from cuqi.geometry import KLExpansion, StepExpansion, Image2D, Continuous2D, MappedGeometry
+    grid = np.arange(6.0)
+    # user maps written dtype-robustly (np.exp of a uint8/bool array would be computed in float16 by numpy itself)
+    fexp = lambda x: np.exp(np.asarray(x, dtype=float))
+    flog = lambda y: np.log(np.asarray(y, dtype=float))
+    return [
+        ("KLExpansion", None, lambda: KLExpansion(np.linspace(0, 1, 8), num_modes=3), 3, (8,), True),
+        ("StepExpansion", step_spec(grid, 3, "mean"), lambda: StepExpansion(grid, n_steps=3), 3, (6,), True),
+        ("Image2D", "image:2:3:F:0", lambda: Image2D((2, 3), order="F"), 6, (2, 3), True),
+        ("Continuous2D", "cont2d:2:3", lambda: Continuous2D((2, 3)), 6, (2, 3), False),
+        ("Mapped(Image2D)/3", None, lambda: MappedGeometry(Image2D((2, 3)), map=lambda x: x / 3, imap=lambda y: 3 * y), 6, (2, 3), True),
+        ("Mapped(StepExpansion)exp", None, lambda: MappedGeometry(StepExpansion(grid, n_steps=3), map=fexp, imap=flog), 3, (6,), True),
+        ("Mapped(KLExpansion)/3", None, lambda: MappedGeometry(KLExpansion(np.linspace(0, 1, 8), num_modes=4), map=lambda x: x / 3, imap=lambda y: 3 * y), 4, (8,), True),
+        ("Mapped(Continuous2D)exp", None, lambda: MappedGeometry(Continuous2D((3, 2)), map=fexp, imap=flog), 6, (3, 2), False),
+    ]
+
+
+def part_dtypes(ctx, cuqi, thorough):
+    """Samples / CUQIarray / direct batches whose arrays are int64, int32, uint8, bool, float32: every
+    conversion must equal the per-sample geometry map computed in float64 (nothing truncated to the
+    input's dtype), and the round trips must hold.  Model (pure, exact): the same chains on the values."""
+    from cuqi.samples import Samples
+    from cuqi.array import CUQIarray
+    rng = np.random.RandomState(ctx.seed + 1308)
+    dts = [np.int64, np.int32, np.uint8, np.bool_, np.float32]
+    lines, lmeta = [], []
+    for (name, spec, mk, pd, fs, has_vec) in _dt_geoms():
+        with quiet():
+            g = mk()
+        positive = "exp" in name          # function values must be in the range of map
+        for dt in dts:
+            tol = 1e-5 if dt is np.float32 else 1e-11
+            lo, hi = (0, 1) if dt is np.bool_ else ((1, 9) if (dt is np.uint8 or positive) else (-9, 9))
+            for ns in (1, 3):
+                P = rng.randint(lo, hi + 1, size=(pd, ns)).astype(dt)
+                F = rng.randint(max(lo, 1) if positive else lo, hi + 1, size=fs + (ns,)).astype(dt)
+                if dt is np.float32:
+                    P, F = (P * np.float32(0.25)).astype(dt), (F * np.float32(0.25) + (np.float32(0.25) if positive else 0)).astype(dt)
+                P64, F64 = P.astype(np.float64), F.astype(np.float64)
+                desc = {"geometry": name, "dtype": np.dtype(dt).name, "ns": ns}
+                ctx.case("dtype", desc)
+                key = f"dtype:{name}:{np.dtype(dt).name}"
+                refF = [call(g.par2fun, P64[:, i].copy()) for i in range(ns)]
+                refP = [call(g.fun2par, F64[..., i].copy()) for i in range(ns)]
+                # Samples from parameters
+                S = call(lambda: Samples(P.copy(), geometry=g))
+                fS = call(lambda: S.funvals)
+                if isinstance(fS, BaseException):
+                    ctx.fail(key + ":Samples:funvals", desc, "defined", repr(fS)[:100])
+                else:
+                    for i in range(ns):
+                        if not _cmp(fS.samples[..., i], refF[i], tol):
+                            ctx.fail(key + ":Samples:funvals", {**desc, "sample": i, "p": P[:, i].tolist()}, short(repr(refF[i])), short(fS.samples[..., i].tolist()),
+                                     "funvals of the collection is not the float64 per-sample par2fun (truncated to the input dtype?)"); break
+                    back = call(lambda: fS.parameters)
+                    if isinstance(back, BaseException) or not _cmp(back.samples, P64, max(tol, 1e-8)):
+                        ctx.fail(key + ":Samples:roundtrip", {**desc, "P": short(P.tolist())}, short(P64.tolist()),
+                                 short(repr(back if isinstance(back, BaseException) else back.samples.tolist())), "parameters -> funvals -> parameters")
+                    if has_vec:
+                        vS = call(lambda: fS.vector)
+                        v2 = call(lambda: vS.funvals) if not isinstance(vS, BaseException) else vS
+                        if isinstance(v2, BaseException) or not _cmp(v2.samples, fS.samples, tol):
+                            ctx.fail(key + ":Samples:vector", desc, "funvals.vector.funvals == funvals", short(repr(v2)))
+                # Samples from function values
+                is_vec = len(fs) == 1
+                pS = call(lambda: Samples(F.copy(), geometry=g, is_par=False, is_vec=is_vec).parameters)
+                if isinstance(pS, BaseException):
+                    ctx.fail(key + ":Samples:parameters", desc, "defined", repr(pS)[:100])
+                else:
+                    for i in range(ns):
+                        if not _cmp(np.asarray(pS.samples[:, i]), np.asarray(refP[i]).reshape(-1), tol):
+                            ctx.fail(key + ":Samples:parameters", {**desc, "sample": i, "f": short(F[..., i].tolist())}, short(repr(refP[i])), short(pS.samples[:, i].tolist()),
+                                     "parameters of the collection is not the float64 per-sample fun2par"); break
+                # CUQIarray
+                c = call(lambda: CUQIarray(P[:, 0].copy(), geometry=g))
+                cf = call(lambda: c.funvals)
+                if isinstance(cf, BaseException) or not _cmp(np.asarray(cf), refF[0], tol):
+                    ctx.fail(key + ":CUQIarray:funvals", {**desc, "p": P[:, 0].tolist()}, short(repr(refF[0])), short(repr(cf)), "CUQIarray.funvals is not the float64 par2fun")
+                else:
+                    cb = call(lambda: np.asarray(cf.parameters))
+                    if isinstance(cb, BaseException) or not _cmp(cb, P64[:, 0], max(tol, 1e-8)):
+                        ctx.fail(key + ":CUQIarray:roundtrip", desc, P64[:, 0].tolist(), short(repr(cb)), "parameters -> funvals -> parameters")
+                cp = call(lambda: np.asarray(CUQIarray(F[..., 0].copy(), is_par=False, geometry=g).parameters))
+                if not _cmp(cp, refP[0], tol):
+                    ctx.fail(key + ":CUQIarray:parameters", {**desc, "f": short(F[..., 0].tolist())}, short(repr(refP[0])), short(repr(cp)), "CUQIarray.parameters is not the float64 fun2par")
+                # batches passed directly
+                if ns > 1:
+                    a, b = call(g.par2fun, P.copy()), call(g.par2fun, P64.copy())
+                    if not _cmp(a, b, tol):
+                        ctx.fail(key + ":par2fun:batch", desc, short(repr(b)), short(repr(a)), "par2fun of a non-float64 batch differs from the float64 batch")
+                    a, b = call(g.fun2par, F.copy()), call(g.fun2par, F64.copy())
+                    if not _cmp(a, b, tol):
+                        ctx.fail(key + ":fun2par:batch", desc, short(repr(b)), short(repr(a)), "fun2par of a non-float64 batch differs from the float64 batch")
+                # model tie (exact model on the values; only for model-expressible geometries)
+                if spec is not None:
+                    lines.append(f"samples {spec} 1 1 {enc(P64)} f,p"); lmeta.append((key, desc, "par", S, P))
+                    lines.append(f"samples {spec} 0 {int(is_vec)} {enc(F64)} p"); lmeta.append((key, desc, "fun", None, F))
+    outs = ctx.lean.drive(lines)
+    for (key, desc, kind, S, X), out in zip(lmeta, outs):
+        ctx.case("dtype-model", desc)
+        toks = out.split(" # ")
+        g = S.geometry if S is not None else None
+        if kind == "par":
+            st = call(lambda: [S.funvals, S.funvals.parameters])
+        else:
+            name = desc["geometry"]
+            gg = [x for x in _dt_geoms() if x[0] == name][0]
+            with quiet():
+                geom = gg[2]()
+            st = call(lambda: [Samples(X.copy(), geometry=geom, is_par=False, is_vec=len(gg[4]) == 1).parameters])
+        if isinstance(st, BaseException) or "err" in toks:
+            if not (isinstance(st, BaseException) and "err" in toks):
+                ctx.disagree(key + ":model", desc, short(out), short(repr(st)), "refusal differs"); ctx.fail(key + ":model", desc, "defined", short(repr(st)))
+            continue
+        for tok, sm in zip(toks, st):
+            t = tok.split(" ")
+            if not same(parse_arr(t[2]), canon(sm.samples), 1e-11) or (t[0] == "1") != bool(sm.is_par):
+                ctx.disagree(key + ":model", {**desc, "data": short(X.tolist())}, short(tok), short(canon(sm.samples)), "conversion of a non-float64 collection differs from the model on the same values")
+                ctx.fail(key + ":model", {**desc, "data": short(X.tolist())}, short(tok), short(canon(sm.samples)), "conversion of a non-float64 collection is not the exact per-sample map of its values")
+                break
+
+
+# ----------------------------------------------------------------------------- part J: in-place histories on one CUQIarray / Samples
+def part_inplace(ctx, cuqi, thorough):
+    """x.funvals (…anything derived may now be cached on the object); modify x IN PLACE; convert again:
+    the results must be the geometry maps of the CURRENT contents (the model is a pure function of the
+    contents).  Also views, copies, arithmetic results and pickling keep geometry/flags."""
+    import pickle
+    from cuqi.samples import Samples
+    from cuqi.array import CUQIarray
+    rng = np.random.RandomState(ctx.seed + 1309)
+    edits = [("x[:]=v", lambda x, v: x.__setitem__(slice(None), v)), ("x*=2", lambda x, v: x.__imul__(2.0)),
+             ("x[0]+=1", lambda x, v: x.__setitem__(0, x[0] + 1)), ("np.add(x,1,out=x)", lambda x, v: np.add(x, 1, out=x)),
+             ("x[-1]=v[-1]", lambda x, v: x.__setitem__(-1, v[-1])), ("x.fill", lambda x, v: x.fill(float(v.ravel()[0])))]
+    lines, lmeta = [], []
+    for (name, spec, mk, pd, fs, has_vec) in _dt_geoms():
+        with quiet():
+            g = mk()
+        positive = "exp" in name
+        tol = 1e-10
+        def check(x, key, desc, is_par):
+            """x: CUQIarray in its current state"""
+            cur = np.array(np.asarray(x), dtype=float)
+            if is_par:
+                want = call(g.par2fun, cur.copy())
+                got = call(lambda: np.asarray(x.funvals))
+                if not _cmp(got, want, tol):
+                    ctx.fail(key + ":funvals", {**desc, "contents": short(cur.tolist())}, short(repr(want)), short(repr(got)),
+                             "funvals does not reflect the current contents of the array")
+                p_again = call(lambda: np.asarray(x.parameters))
+                if not _cmp(p_again, cur, tol):
+                    ctx.fail(key + ":parameters", {**desc, "contents": short(cur.tolist())}, short(cur.tolist()), short(repr(p_again)), "parameters of a parameter array is not its contents")
+                back = call(lambda: np.asarray(x.funvals.parameters))
+                if isinstance(back, BaseException) or not _cmp(back, cur, 1e-8):
+                    ctx.fail(key + ":roundtrip", {**desc, "contents": short(cur.tolist())}, short(cur.tolist()), short(repr(back)), "funvals.parameters is not the current contents")
+                if spec is not None:
+                    lines.append(f"carr {spec} 1 {enc(cur)} f,p"); lmeta.append((key, desc, x, True, cur))
+            else:
+                want = call(g.fun2par, cur.copy())
+                got = call(lambda: np.asarray(x.parameters))
+                if not _cmp(got, want, tol):
+                    ctx.fail(key + ":parameters", {**desc, "contents": short(cur.tolist())}, short(repr(want)), short(repr(got)),
+                             "parameters does not reflect the current contents of the function-value array")
+                f_again = call(lambda: np.asarray(x.funvals))
+                if not _cmp(f_again, cur, tol):
+                    ctx.fail(key + ":funvals", {**desc, "contents": short(cur.tolist())}, short(cur.tolist()), short(repr(f_again)), "funvals of a function-value array is not its contents")
+                if spec is not None:
+                    lines.append(f"carr {spec} 0 {enc(cur)} p"); lmeta.append((key, desc, x, False, cur))
+
+        for is_par in (True, False):
+            shape = (pd,) if is_par else fs
+            for (ename, edit) in edits:
+                if not is_par and len(fs) > 1 and ename in ("x[0]+=1", "x[-1]=v[-1]"):
+                    continue
+                lo = 1 if positive and not is_par else -6
+                x0 = 0.25 * ints(rng, shape, lo, 6) + (0.0 if lo < 0 else 0.25)
+                v = 0.25 * ints(rng, shape, lo, 6) + (0.0 if lo < 0 else 0.25)
+                desc = {"geometry": name, "is_par": is_par, "edit": ename}
+                ctx.case("inplace-cuqiarray", desc)
+                key = f"CUQIarray:inplace:{name}"
+                x = call(lambda: CUQIarray(x0.copy(), is_par=is_par, geometry=g))
+                if isinstance(x, BaseException):
+                    ctx.fail(key + ":construct", desc, "constructed", repr(x)[:80]); continue
+                call(lambda: (x.funvals, x.parameters, x.funvals.parameters))      # populate whatever may be cached
+                r = call(edit, x, v)
+                if isinstance(r, BaseException):
+                    ctx.fail(key + ":edit", desc, "in-place edit accepted", repr(r)[:100]); continue
+                if positive and not is_par and np.asarray(x).min() <= 0:
+                    continue
+                check(x, key, desc, is_par)
+                # a second edit through a view of x
+                w = x[...]
+                call(lambda: w.__setitem__(Ellipsis, np.asarray(w) + 1.0))
+                check(x, key + ":via-view", {**desc, "edit": ename + " then view[...]+=1"}, is_par)
+            # views, copies, arithmetic, pickling
+            lo = 1 if positive and not is_par else -6
+            x0 = 0.25 * ints(rng, shape, lo, 6) + (0.0 if lo < 0 else 0.25)
+            x = CUQIarray(x0.copy(), is_par=is_par, geometry=g)
+            call(lambda: (x.funvals, x.parameters))
+            derived = [("view", lambda: x[...]), ("view()", lambda: x.view()), ("copy", lambda: x.copy()), ("2*x", lambda: 2 * x),
+                       ("x+x", lambda: x + x), ("abs", lambda: np.abs(x) + 0.25), ("pickle", lambda: pickle.loads(pickle.dumps(x)))]
+            for (dname, mkd) in derived:
+                desc = {"geometry": name, "is_par": is_par, "derived": dname}
+                ctx.case("derived-cuqiarray", desc)
+                key = f"CUQIarray:{'pickle' if dname == 'pickle' else 'derived'}:{name}"
+                y = call(mkd)
+                if isinstance(y, BaseException) or not isinstance(y, CUQIarray):
+                    ctx.fail(key + ":type", desc, "a CUQIarray", repr(y)[:80]); continue
+                if getattr(y, "is_par", None) is not is_par or getattr(y, "geometry", None) is None:
+                    ctx.fail(key + ":flags", desc, f"is_par={is_par} and the geometry kept", f"is_par={getattr(y, 'is_par', 'MISSING')} geometry={'kept' if getattr(y, 'geometry', None) is not None else 'MISSING'}",
+                             "derived array lost its geometry / representation flag"); continue
+                check(y, key, desc, is_par)
+                if dname == "copy":       # independence of the copy
+                    call(lambda: y.__setitem__(Ellipsis, np.asarray(y) * 0.5 + 1.0))
+                    check(y, key + ":edited", desc, is_par); check(x, key + ":original", desc, is_par)
+        # Samples: in-place edits of S.samples between conversions
+        for ns in (1, 3):
+            desc = {"geometry": name, "ns": ns}
+            ctx.case("inplace-samples", desc)
+            key = f"Samples:inplace:{name}"
+            P = 0.25 * ints(rng, (pd, ns), -6, 6)
+            S = Samples(P.copy(), geometry=g)
+            f1 = call(lambda: S.funvals); call(lambda: S.funvals.parameters)
+            S.samples[:] = 0.25 * ints(rng, (pd, ns), -6, 6); S.samples *= 2.0; S.samples[0, -1] += 1.0
+            f2 = call(lambda: S.funvals)
+            if isinstance(f2, BaseException):
+                ctx.fail(key + ":funvals", desc, "defined", repr(f2)[:80]); continue
+            for i in range(ns):
+                if not _cmp(f2.samples[..., i], call(g.par2fun, S.samples[:, i].copy()), tol):
+                    ctx.fail(key + ":funvals", {**desc, "sample": i}, "par2fun of the current sample", short(f2.samples[..., i].tolist()), "funvals does not reflect the edited samples"); break
+            if positive:
+                f2.samples[...] = np.abs(f2.samples) + 0.5
+            else:
+                f2.samples[...] = 0.25 * ints(rng, f2.samples.shape, -6, 6)
+            p2 = call(lambda: f2.parameters)
+            if isinstance(p2, BaseException):
+                ctx.fail(key + ":parameters", desc, "defined", repr(p2)[:80]); continue
+            conv = (lambda a: g.fun2par(g.vec2fun(a))) if f2.is_vec else g.fun2par
+            for i in range(ns):
+                if not _cmp(np.asarray(p2.samples[:, i]), np.asarray(call(conv, f2.samples[..., i].copy())).reshape(-1), tol):
+                    ctx.fail(key + ":parameters", {**desc, "sample": i}, "fun2par of the current sample", short(p2.samples[:, i].tolist()), "parameters does not reflect the edited function values"); break
+    outs = ctx.lean.drive(lines)
+    for (key, desc, x, is_par, cur), out in zip(lmeta, outs):
+        ctx.case("inplace-model", desc)
+        toks = out.split(" # ")
+        st = call(lambda: [x.funvals, x.funvals.parameters] if is_par else [x.parameters])
+        if isinstance(st, BaseException) or "err" in toks:
+            if not (isinstance(st, BaseException) and "err" in toks):
+                ctx.disagree(key + ":model", desc, short(out), short(repr(st)), "refusal differs"); ctx.fail(key + ":model", desc, "defined", short(repr(st)))
+            continue
+        if not _cmp(np.asarray(x), cur):
+            continue   # the array was edited again after this snapshot (copy-independence test)
+        for tok, sm in zip(toks, st):
+            t = tok.split(" ")
+            if not same(parse_arr(t[1]), canon(np.asarray(sm)), 1e-11):
+                ctx.disagree(key + ":model", {**desc, "contents": short(cur.tolist())}, short(tok), short(canon(np.asarray(sm))), "conversion after an in-place edit differs from the model on the current contents")
+                ctx.fail(key + ":model", {**desc, "contents": short(cur.tolist())}, short(tok), short(canon(np.asarray(sm))), "conversion does not reflect the current contents")
+                break
+
+
 # ----------------------------------------------------------------------------- entry
 def run(ctx):
     cuqi = import_cuqi()
@@ -1135,3 +1399,5 @@ def run(ctx):
     part_reassign(ctx, cuqi, thorough)
     part_mapped(ctx, cuqi, thorough)
     part_scipy_dst(ctx, cuqi, thorough)
+    part_dtypes(ctx, cuqi, thorough)
+    part_inplace(ctx, cuqi, thorough)
